@@ -394,7 +394,9 @@ class SafeLearner(Learner):
         #this logic should guarantee that we can differentiate prediction formats
         #it allows us to "is" checks to see if a returned value "is" one of the actions
         if self._prev_actions != actions:
-            self._prev_actions = actions
+            #keep a copy (not a reference): a caller may reuse its list object and change it in place
+            copy_row = lambda A: list(A) if isinstance(A,list) else A
+            self._prev_actions = [copy_row(A) for A in actions] if is_batch(actions) else copy_row(actions)
             is_safe   = lambda A: not A or not hasattr(A,'__iter__') or (0 not in A and 1 not in A)
             make_safe = lambda a: float(a) if a in [0,1] else a
             safe_row  = lambda A: A if is_safe(A) else [ make_safe(a) for a in A]
